@@ -526,6 +526,9 @@ class FnDep:
                 if 1 <= p <= len(arg_uses):
                     uses |= arg_uses[p - 1]
             atoms = set(base_atoms) | {a for a in ch[1] if not a.startswith("param:")} | arg_atoms
+            dch = summ.channels.get("dec")
+            if dch is not None:
+                atoms |= {a for a in dch[1] if not a.startswith("param:")}
             info = {"callee": ck, "analysed": True, "ret_params": sorted(ch[0])}
             if ins.dest is not None:
                 for t in self._write_targets(ins.dest):
@@ -652,22 +655,38 @@ class FnDep:
 
     def decision_slice(self, local=0):
         """conditions that control the assignments to `local` (default: return place),
-        closed under dependence"""
+        closed under dependence.  A result that is delegated to an analysed callee
+        (`_0 = helper(..)`, `helper(..)?`) inherits that callee's decision."""
         blocks = set()
+        extra_atoms = set()
+        extra_seeds = set()
         for d in self.defs.get(local, ()):
             if d.instr is not None:
                 blocks.add(d.instr.bb)
+                if d.kind == "call-dest" and d.info.get("analysed"):
+                    s = self.summaries.get(d.info.get("callee"))
+                    if s is not None and "dec" in s.channels:
+                        ps, ats = s.channels["dec"]
+                        extra_atoms |= {a for a in ats if not a.startswith("param:")}
+                        for pi in ps:
+                            if 1 <= pi <= len(d.instr.args):
+                                extra_seeds |= self.operand_uses(d.instr.args[pi - 1])
         # also the return blocks themselves (which return is taken)
         for ins in self.body.instrs():
             if ins.kind == "return":
                 blocks.add(ins.bb)
-        return self.slice(seed_blocks=blocks)
+        r = self.slice(seed_blocks=blocks, seed_locals=extra_seeds)
+        r["atoms"] = set(r["atoms"]) | extra_atoms
+        return r
 
     def summary(self):
         s = Summary()
         r = self.ret_slice()
         s.channels["ret"] = (frozenset(int(a[6:]) for a in r["atoms"] if a.startswith("param:")),
                              frozenset(r["atoms"]))
+        dsl = self.decision_slice()
+        s.channels["dec"] = (frozenset(int(a[6:]) for a in dsl["atoms"] if a.startswith("param:")),
+                             frozenset(dsl["atoms"]))
         for i in range(1, self.body.argc + 1):
             ds = [d for d in self.defs.get(pointee(i), ()) if d.kind != "param"]
             if ds:
